@@ -4,7 +4,7 @@ CONSTANTS
  InnerNames <- I12
  KeyLists <- KL_c09_4
  ClientKeys <- C09Clients
- Ops <- NoneOp
+ Ops <- NoneUnlisted
  Pads <- Pad1
  Sids <- Sid1
 INVARIANTS TypeOK Req_C02 Req_C02_Tamper Req_C03 Req_C04 Req_C04_NeverAccept Req_C05 Req_C09 Emit
